@@ -171,6 +171,28 @@ func init() {
 		default:
 			return "", fmt.Errorf("replicator.IgnoreMessage: unknown condition %q", ic)
 		}
+		// partition.replica: which calls on the replicator sit in the error branch of GetMessage and which in the else branch
+		pf, err := get("replica/partition.go")
+		if err != nil {
+			return "", err
+		}
+		prf := FindFunc(pf, "partition", "replica")
+		if prf == nil {
+			return "", fmt.Errorf("func partition.replica not found")
+		}
+		fmt.Fprintf(&sb, "/-- partition.replica: the assignments from replicator calls, the guards, and the replicator calls (with arguments) of the `err != nil` branch after GetMessage (`then:`) and of its else branch (`else:`) -/\ndef partitionReplicaBranches : List String := %s\n\n",
+			LeanStrList(c07ReplicaBranches(prf)))
+		// localReplicator.Replica: which statements set the `err` the deferred function tests, and what the deferred function does
+		lrf, err2 := get("replica/replicator_local.go")
+		if err2 != nil {
+			return "", err2
+		}
+		lrFd := FindFunc(lrf, "localReplicator", "Replica")
+		if lrFd == nil {
+			return "", fmt.Errorf("func localReplicator.Replica not found")
+		}
+		fmt.Fprintf(&sb, "/-- localReplicator.Replica: declarations / assignments of `err` (`var`, `=`: the variable the deferred function tests; `if-init :=`: a shadowing one), the early `return`s with their guards, and the deferred function's guarded and unguarded calls on r / r.family -/\ndef replicaErrFlow : List String := %s\n\n",
+			LeanStrList(c07ReplicaErrFlow(lrFd)))
 		atomic, err := C07AtomicAcquire(repo)
 		if err != nil {
 			return "", err
@@ -613,4 +635,154 @@ func earlyReturnResets(fd *ast.FuncDecl) bool {
 		return found
 	}
 	return false
+}
+
+// c07ReplicaBranches describes the data flow of partition.replica around GetMessage: every
+// assignment whose right-hand side is a call on `replicator` ("assign:<lhs> := <call>"), every if
+// condition that is not the error test ("if:<cond>"), and for the `err != nil` test every call on
+// `replicator` in its body ("then:<call>") and in its else branch ("else:<call>"), in source order.
+func c07ReplicaBranches(fd *ast.FuncDecl) []string {
+	var out []string
+	if fd == nil || fd.Body == nil {
+		return out
+	}
+	onRepl := func(c *ast.CallExpr) bool {
+		sel, ok := c.Fun.(*ast.SelectorExpr)
+		if !ok {
+			return false
+		}
+		id, ok := sel.X.(*ast.Ident)
+		return ok && id.Name == "replicator"
+	}
+	calls := func(n ast.Node, tag string) {
+		if n == nil {
+			return
+		}
+		ast.Inspect(n, func(x ast.Node) bool {
+			if c, ok := x.(*ast.CallExpr); ok && onRepl(c) {
+				if sel := c.Fun.(*ast.SelectorExpr); sel.Sel.Name != "String" {
+					out = append(out, tag+c07Text(c))
+				}
+			}
+			return true
+		})
+	}
+	ast.Inspect(fd.Body, func(n ast.Node) bool {
+		switch x := n.(type) {
+		case *ast.FuncLit:
+			return false
+		case *ast.AssignStmt:
+			if len(x.Rhs) == 1 {
+				if c, ok := x.Rhs[0].(*ast.CallExpr); ok && onRepl(c) {
+					var lhs []string
+					for _, l := range x.Lhs {
+						lhs = append(lhs, c07Text(l))
+					}
+					out = append(out, "assign:"+strings.Join(lhs, ", ")+" "+x.Tok.String()+" "+c07Text(c))
+				}
+			}
+		case *ast.IfStmt:
+			cond := c07Text(x.Cond)
+			if cond == "err != nil" {
+				calls(x.Body, "then:")
+				if x.Else != nil {
+					calls(x.Else, "else:")
+				} else {
+					out = append(out, "else:none")
+				}
+				return false
+			}
+			out = append(out, "if:"+cond)
+		}
+		return true
+	})
+	return out
+}
+
+// c07ReplicaErrFlow describes how localReplicator.Replica's error reaches its deferred function:
+// "var:err" for the declaration, "set:<lhs> = <call>" for plain assignments to err, "shadow:<call>"
+// for `if err := <call>; ...` (a new variable: the deferred function does not see it),
+// "guard:<cond>" for every if condition outside the deferred function, and for the deferred
+// function "defer-if:<cond>", "defer-then:<call>" (calls on r / r.family inside the if) and
+// "defer:<call>" (calls on r / r.family after it), in source order.
+func c07ReplicaErrFlow(fd *ast.FuncDecl) []string {
+	var out []string
+	if fd == nil || fd.Body == nil {
+		return out
+	}
+	recvCall := func(c *ast.CallExpr) bool {
+		t := c07Text(c.Fun)
+		return strings.HasPrefix(t, "r.IgnoreMessage") || strings.HasPrefix(t, "r.family.") || strings.HasPrefix(t, "r.SetAckIndex")
+	}
+	var inDefer func(n ast.Node, tag string)
+	inDefer = func(n ast.Node, tag string) {
+		ast.Inspect(n, func(x ast.Node) bool {
+			switch y := x.(type) {
+			case *ast.IfStmt:
+				out = append(out, "defer-if:"+c07Text(y.Cond))
+				inDefer(y.Body, "defer-then:")
+				if y.Else != nil {
+					inDefer(y.Else, "defer-else:")
+				}
+				return false
+			case *ast.CallExpr:
+				if recvCall(y) {
+					out = append(out, tag+c07Text(y))
+				}
+			}
+			return true
+		})
+	}
+	ast.Inspect(fd.Body, func(n ast.Node) bool {
+		switch x := n.(type) {
+		case *ast.DeferStmt:
+			if fl, ok := x.Call.Fun.(*ast.FuncLit); ok {
+				inDefer(fl.Body, "defer:")
+			}
+			return false
+		case *ast.GenDecl:
+			for _, sp := range x.Specs {
+				if vs, ok := sp.(*ast.ValueSpec); ok {
+					for _, nm := range vs.Names {
+						if nm.Name == "err" {
+							out = append(out, "var:err")
+						}
+					}
+				}
+			}
+		case *ast.AssignStmt:
+			for _, l := range x.Lhs {
+				if id, ok := l.(*ast.Ident); ok && id.Name == "err" && len(x.Rhs) == 1 {
+					if c, ok := x.Rhs[0].(*ast.CallExpr); ok {
+						var lhs []string
+						for _, l2 := range x.Lhs {
+							lhs = append(lhs, c07Text(l2))
+						}
+						out = append(out, "set:"+strings.Join(lhs, ", ")+" "+x.Tok.String()+" "+c07Text(c.Fun))
+					}
+				}
+			}
+		case *ast.IfStmt:
+			if as, ok := x.Init.(*ast.AssignStmt); ok && len(as.Rhs) == 1 {
+				if c, ok := as.Rhs[0].(*ast.CallExpr); ok {
+					out = append(out, "shadow:"+c07Text(as.Lhs[0])+" "+as.Tok.String()+" "+c07Text(c.Fun))
+				}
+				ast.Inspect(x.Body, func(y ast.Node) bool { return true })
+				out = append(out, "guard:"+c07Text(x.Cond))
+				// do not descend into Init again (it would be reported as set:)
+				ast.Inspect(x.Body, func(y ast.Node) bool {
+					if _, ok := y.(*ast.ReturnStmt); ok {
+						out = append(out, "return")
+					}
+					return true
+				})
+				return false
+			}
+			out = append(out, "guard:"+c07Text(x.Cond))
+		case *ast.ReturnStmt:
+			out = append(out, "return")
+		}
+		return true
+	})
+	return out
 }
